@@ -26,6 +26,10 @@ ASSUMPTIONS = ["contracts of WCSHelper.sky2pix_ellipse and "
                "fitting.elliptical_gaussian (units.py)"]
 
 MUTANTS = [
+    ("model file receives the residual", "AegeanTools/AeRes.py",
+     "        hdulist[0].data = model\n        hdulist.writeto(mfile, overwrite=True)",
+     "        hdulist[0].data = residual\n        hdulist.writeto(mfile, overwrite=True)",
+     "C14-R8"),
     ("float32 cells no longer promoted", "AegeanTools/catalogs.py",
      "                if isinstance(val, np.float32):\n"
      "                    val = np.float64(val)",
@@ -469,6 +473,7 @@ def run(ctx):
             defaults.get(u) == c for u, c in zip(user, canon)) and \
             len(set(canon)) == 6
     r7_promotion(ctx, prog)
+    r8_outputs(ctx, prog)
     ctx.check("C14-R6", ls, "rename pairs", ok,
               "user column k must be renamed to canonical name k (the "
               "default of the corresponding *_col parameter)",
@@ -524,3 +529,44 @@ def r7_promotion(ctx, prog):
                   "the arithmetic of translate() in single precision and the "
                   "model axes are off by up to a few per cent for compact "
                   "sources", node=st)
+
+
+def r8_outputs(ctx, prog):
+    """make_residual writes the residual to rfile and the model to mfile"""
+    ctx.rule("C14-R8", "outputs of make_residual: the array stored in the "
+             "HDU when rfile is written is the residual (data +/- model), "
+             "when mfile is written it is the model returned by make_model")
+    fi = prog.func("AeRes.make_residual")
+    body = sorted((s_ for s_ in walk_no_nested(fi.node)
+                   if isinstance(s_, (ast.Assign, ast.Expr))),
+                  key=lambda s_: s_.lineno)
+    model = [norm(s_.targets[0]) for s_ in body if isinstance(s_, ast.Assign)
+             and isinstance(s_.value, ast.Call)
+             and norm(s_.value.func).split(".")[-1] == "make_model"]
+    if len(model) != 1:
+        raise AnalysisError("C14-R8: make_model call of make_residual")
+    model = model[0]
+    resid = {norm(s_.targets[0]) for s_ in body if isinstance(s_, ast.Assign)
+             and isinstance(s_.value, ast.BinOp)
+             and isinstance(s_.value.op, (ast.Add, ast.Sub))
+             and model in names_in(s_.value)}
+    role = {"rfile": resid, "mfile": {model}}
+    cur = None
+    n = 0
+    for s_ in body:
+        if isinstance(s_, ast.Assign) and \
+                norm(s_.targets[0]).endswith("].data"):
+            cur = norm(s_.value)
+        if isinstance(s_, ast.Expr) and isinstance(s_.value, ast.Call) and \
+                isinstance(s_.value.func, ast.Attribute) and \
+                s_.value.func.attr == "writeto" and s_.value.args:
+            dest = norm(s_.value.args[0])
+            if dest not in role:
+                continue
+            n += 1
+            ctx.check("C14-R8", fi, "%s receives %s" % (dest, cur),
+                      cur in role[dest],
+                      "the file %s is written while the HDU holds `%s`; "
+                      "expected %s" % (dest, cur, sorted(role[dest])),
+                      node=s_)
+    ctx.floor("C14-R8", n, 2, "output files of make_residual")
